@@ -50,6 +50,13 @@ type Case struct {
 	Cache bool `json:"cache,omitempty"`
 	// Directed: a hand-built tree instead of a generated one
 	Directed string `json:"directed,omitempty"`
+	// Quiet: the harness reads nothing of the running store between the steps (no view, no
+	// probe); only the committed images are looked at
+	Quiet bool `json:"quiet,omitempty"`
+	// Net: network parameters other than the regime's
+	Net *storeobs.NetParams `json:"net,omitempty"`
+	// CrashAtWrite > 0: live variant stopping inside a step, at the n-th Put/Delete that reaches the database
+	CrashAtWrite int `json:"crash_at_write,omitempty"`
 	// CrashAt > 0: the live variant — the node stops after block step CrashAt, the database
 	// discards its uncommitted window and is itself reopened
 	CrashAt int `json:"crash_at,omitempty"`
@@ -63,6 +70,7 @@ type Case struct {
 func (c Case) Tree() *chaingen.Tree {
 	r := rng.New(c.Seed)
 	env := chaingen.NewEnv(r, c.Regime)
+	c.Net.Apply(env)
 	if c.Directed == "shared-expiration-list" {
 		s := chaingen.NewScript(r, env)
 		b1 := s.Extend(s.T.Nodes[0], func(b *chaingen.Builder) {
@@ -124,6 +132,7 @@ type outcome struct {
 
 	naturalFired  bool
 	boundsChecked int
+	openWrites    int       // writes that reached the database while the store was opened
 	known         []failure // known-finding observations (the history goes on)
 	knownStream   int
 }
@@ -213,12 +222,13 @@ func runCase(t *chaingen.Tree, cs Case, wantCoq bool) (o outcome) {
 	if cs.Cache {
 		db = chain.NewCacheDB(rec)
 	}
-	nd, err = storeobs.NewNode(t, db, nil)
+	nd, err = storeobs.NewNodeOpt(t, db, nil, cs.Quiet)
 	if err != nil {
 		o.fail = &failure{"c03-store-does-not-open", err.Error(), -1}
 		return
 	}
 	o.nd, o.rec = nd, rec
+	o.openWrites = rec.Writes
 	natural := 0
 	if cs.NaturalAt > 0 {
 		nd.Rec.Before = func(bool) {
@@ -253,8 +263,9 @@ func runCase(t *chaingen.Tree, cs Case, wantCoq bool) (o outcome) {
 			}
 		}
 	}
+	plain := storeobs.PlainOps(cs.Plan)
 	for _, op := range cs.Plan {
-		obs := nd.Do(op)
+		obs := storeobs.DoOp(nd, op)
 		rec.CheckHandedOut()
 		if rec.AliasErr != "" {
 			o.fail = &failure{kindAlias, fmt.Sprintf("during %v (block step %d): %s", op, len(nd.Steps)-1, rec.AliasErr), -1}
@@ -435,7 +446,7 @@ func runCase(t *chaingen.Tree, cs Case, wantCoq bool) (o outcome) {
 			}
 			bounds = append(bounds, fmt.Sprintf("([%s], [%s])", strings.Join(ks, "; "), strings.Join(best, "; ")))
 		}
-		for _, op := range cs.Plan {
+		for _, op := range plain {
 			obs := nd2.DoObserved(op)
 			ro.hist = append(ro.hist, obs)
 			if obs.Panic {
@@ -468,10 +479,10 @@ func runCase(t *chaingen.Tree, cs Case, wantCoq bool) (o outcome) {
 		case !bytes.Equal(mgrsim.EncState(sim.CM.TipState()), encState(final)):
 			fail(k, "c03-catch-up-state-differs", "the node reopened from the image after step %d reaches the final tip %d with a different state", im.Step, final.Idx)
 		}
-		if wantCoq && !stats.Trigger && len(ro.hist) == len(cs.Plan) && (k < 1 || k+1 == len(rec.Images) || inside(im.Step) && len(mcases) < 2) {
+		if wantCoq && !stats.Trigger && len(ro.hist) == len(plain) && (k < 1 || k+1 == len(rec.Images) || inside(im.Step) && len(mcases) < 2) {
 			var hs []string
-			for i := range cs.Plan {
-				hs = append(hs, "("+qualify(mgrsim.CoqOp(t, cs.Plan[i]))+", "+qualify(mgrsim.CoqObs(ro.hist[i]))+")")
+			for i := range plain {
+				hs = append(hs, "("+qualify(mgrsim.CoqOp(t, plain[i]))+", "+qualify(mgrsim.CoqObs(ro.hist[i]))+")")
 			}
 			var ks []string
 			for _, e := range ro.known {
@@ -497,7 +508,7 @@ func runCase(t *chaingen.Tree, cs Case, wantCoq bool) (o outcome) {
 		}
 		var ops []string
 		if bounds != nil {
-			for _, op := range cs.Plan {
+			for _, op := range plain {
 				ops = append(ops, qualify(mgrsim.CoqOp(t, op)))
 			}
 		}
@@ -505,7 +516,9 @@ func runCase(t *chaingen.Tree, cs Case, wantCoq bool) (o outcome) {
 		if bounds != nil {
 			univ = qualify(mgrsim.CoqUniverse(t))
 		}
-		o.coq = coqCase(nd, rec, dumps, mcases) + fmt.Sprintf("\n %s\n [%s]\n [%s]", univ, strings.Join(ops, "; "), strings.Join(bounds, ";\n  "))
+		if cc := coqCase(nd, rec, dumps, mcases); cc != "" {
+			o.coq = cc + fmt.Sprintf("\n %s\n [%s]\n [%s]", univ, strings.Join(ops, "; "), strings.Join(bounds, ";\n  "))
+		}
 		if bounds != nil {
 			o.boundsChecked = len(bounds)
 		}
@@ -527,6 +540,11 @@ func qualify(s string) string {
 }
 
 func coqCase(nd *storeobs.Node, rec *storeobs.RecDB, dumps, mcases []string) string {
+	for _, st := range nd.Steps {
+		if st.Node < 0 {
+			return ""
+		}
+	}
 	n := nd.Names
 	blocks := map[int]storeobs.Diffs{}
 	var order []int
@@ -636,6 +654,36 @@ func run(c *hx.Ctx) {
 		if cs.Cache {
 			res.Count("store-on-a-CacheDB (images = commits of the database underneath)")
 		}
+		if cs.Quiet {
+			res.Count("unobserved-runs (nothing of the running store is read between the steps)")
+		}
+		if cs.Net != nil {
+			res.Count(fmt.Sprintf("network:allow=%d,require=%d,final-cut=%d,maturity=%d", t.Env.Net.HardforkV2.AllowHeight, t.Env.Net.HardforkV2.RequireHeight, t.Env.Net.HardforkV2.FinalCutHeight, t.Env.Net.MaturityDelay))
+		}
+		if cs.Opts.Remine > 0 {
+			res.Count("trees-with-re-mined-and-same-block-chained-transactions")
+		}
+		for _, op := range cs.Plan {
+			switch op.Kind {
+			case "reopen":
+				res.Count("clean-reopens-in-the-middle-of-a-history")
+			case "adds":
+				res.Count("calls-with-arguments-overwritten-after-the-call")
+			case "addn":
+				res.Count("calls-with-a-second-call-started-from-the-reorg-callback")
+			}
+		}
+		if o.nd != nil {
+			seen := map[int]bool{}
+			for _, st := range o.nd.Steps {
+				if st.Apply && st.Node >= 0 && !seen[st.Node] {
+					seen[st.Node] = true
+					for _, k := range t.Nodes[st.Node].Kinds {
+						res.Count("applied-tx:" + k)
+					}
+				}
+			}
+		}
 		switch cs.Sched {
 		case "all", "none":
 			res.Count("schedule:" + cs.Sched)
@@ -687,10 +735,29 @@ func run(c *hx.Ctx) {
 					points = append(points, 1+pr.Intn(o.steps-1), 1+pr.Intn(o.steps-1))
 				}
 			}
+			// and stops in the middle of a step (or of a cache flush): at the n-th Put/Delete that
+			// reaches the database; negative entries of points are write numbers
+			if w0, w1 := o.openWrites, o.rec.Writes; w1 > w0 {
+				pr := rng.New(cs.Seed ^ 0x77e)
+				nw := 1
+				if cs.Directed != "" || c.Thorough {
+					nw = 6
+				}
+				for j := 0; j < nw; j++ {
+					points = append(points, -(w0 + 1 + pr.Intn(w1-w0)))
+				}
+			}
 			for _, k := range points {
-				lo := runLive(t, cs, k, o.finalTip)
+				lcs := cs
+				if k < 0 {
+					lcs.CrashAtWrite, k = -k, -1
+				}
+				lo := runLive(t, lcs, k, o.finalTip)
 				if !lo.crashed && lo.fail == nil {
 					continue
+				}
+				if lcs.CrashAtWrite > 0 {
+					res.Count("live-crash-points-inside-a-step (at a Put/Delete reaching the database)")
 				}
 				res.Count("live-crash-points (database reopened after Cancel)")
 				if lo.pending > 0 {
@@ -699,8 +766,7 @@ func run(c *hx.Ctx) {
 				if lo.unsep {
 					res.Count("catch-ups-ending-elsewhere-without-separation")
 				}
-				lcs := cs
-				lcs.CrashAt = k
+				lcs.CrashAt = max(k, 0)
 				if lo.known != nil {
 					res.Fail(lo.known.kind, lo.known.detail, map[string]any{"case": lcs, "tree": describe(t)})
 				}
@@ -789,6 +855,18 @@ func run(c *hx.Ctx) {
 	for i := 0; i < n; i++ {
 		r := c.R.Fork()
 		cs := Case{Seed: r.U64(), Regime: i % 6, Opts: chaingen.GenOpts{Blocks: 5 + r.Intn(10), Branchiness: 2 + r.Intn(3), TxPerBlock: 1 + r.Intn(4), Corruptions: r.Intn(3), Jitter: r.Intn(4), OnInvalid: r.Intn(2)}}
+		if i%5 == 1 {
+			cs.Opts.Chained, cs.Opts.Remine = 1, 2 // re-mined transactions, same-block v1 chains
+		}
+		if cs.Regime%3 == 1 && i%2 == 1 {
+			cs.Net = &[]storeobs.NetParams{{Allow: 2, Require: 3, FinalCut: 4}, {Allow: 4, Require: 4, FinalCut: 6}, {Allow: 1, Require: 6, FinalCut: 6}}[(i/2)%3]
+		}
+		if i%7 == 3 || i%7 == 5 {
+			if cs.Net == nil {
+				cs.Net = &storeobs.NetParams{}
+			}
+			cs.Net.Maturity = uint64(i%7 - 2 + 2*(i%7/5)) // 1 or 5
+		}
 		if i%5 == 3 {
 			// same-block contract shapes among the ordinary kinds (see chaingen/contractshapes.go)
 			cs.Opts.Kinds = append(append(append([]string(nil), chaingen.TxKinds...), chaingen.ShapeKinds...), chaingen.ShapeKinds...)
@@ -801,7 +879,11 @@ func run(c *hx.Ctx) {
 		} else {
 			cs.Plan = reorgPlan(pr, t)
 		}
-		cs.Bolt = c.Thorough && i%4 == 3
+		cs.Bolt = c.Thorough && i%4 == 3 || i%16 == 15
+		cs.Quiet = i%4 == 1
+		if i%3 == 2 {
+			cs.Plan = storeobs.Spice(rng.New(cs.Seed^0xabc), cs.Plan, i%2 == 0)
+		}
 		cs.Cache = i%3 == 2
 		cs.Sched = "all"
 		doCase(cs, true)
